@@ -941,6 +941,7 @@ def compare(psrc, qsrc, opts, ptree=None, qtree=None):
     # ---- binding relation over identifier pairs
     fwd = {}
     bwd = {}
+    effective = {}      # P occurrence key -> the binding it effectively has (after bindings removed with their statements are discounted)
     res.renames_by = {}
     for pkey, qkey, kind in rep.pairs:
         po = pm_.occ.get(pkey)
@@ -976,6 +977,7 @@ def compare(psrc, qsrc, opts, ptree=None, qtree=None):
                 nb = ('b', raw_idx, nb[2]) if raw_idx is not None else None
             if nb is not None:
                 pb = nb
+            effective[pkey] = pb
             if pb[0] == 'free':
                 if qb != pb and not (qb[0] == 'free' and po.name != po.raw and qo.raw == po.raw):
                     res.problems.append({'kind': 'free-name-captured-or-changed',
@@ -994,6 +996,7 @@ def compare(psrc, qsrc, opts, ptree=None, qtree=None):
         if bwd.setdefault(qk, pk) != pk:
             res.problems.append({'kind': 'two-bindings-merged', 'detail': 'distinct bindings %s and %s of scope %d both became %s' % (bwd[qk][1], pk[1], pk[0], qk[1])})
     res.fwd = fwd
+    res.effective = effective
     for pk, qk in fwd.items():
         if pk[1] != qk[1]:
             sc = pm_.scopes[pk[0]]
@@ -1043,7 +1046,9 @@ def interface_violations(res, opts):
         po, qo = pm_.occ.get(pkey), qm_.occ.get(qkey)
         if po is None or qo is None or po.raw == qo.raw:
             continue
-        pb = po.binding
+        pb = getattr(res, 'effective', {}).get(pkey, po.binding)
+        if pb is None:
+            continue
         if dunder(po.raw):
             out.append({'kind': 'interface:dunder-name', 'detail': '%s -> %s' % (po.raw, qo.raw)})
             continue
